@@ -103,13 +103,39 @@ CLAIMS = [
                       "table (rules/lub_table.json) is the audited reference of today's comparisons; it encodes my reading of lub.rs. "
                       "Known finding F7 (typed holes get stuck) is listed; F11 (found by the seeding agents) was repaired.",
     },
+    {
+        "id": "C02",
+        "technique": "static analysis: audited golden arm traces (canonical, name-independent event sequences from typed HIR) of the CK machine and of erasure; environment-flow rule; sibling-agreement rules",
+        "level_text": "Decides that every arm of Eval for Computation/Value, Assign, the product helpers and Link performs exactly the audited "
+                      "sequence of pops, pushes (with payload provenance), operand evaluations, environment installs and captures, steps and "
+                      "positional constructor arguments (80 arm obligations), plus a generic rule that every closure-like value captures "
+                      "runtime.env and runtime.env is written only from a frame/thunk/closure field or a saved outer environment, that the "
+                      "two projection-pattern elaborations fold in the same direction, and that block source order is the collector's "
+                      "enumeration index. These are the structural content of 'thunks capture their lexical environment', 'do runs its bindee "
+                      "before its tail', 'patterns bind by position', 'a destructor selects the same-named arm'.",
+        "level_note": "NOT decided: observational equality over runs; that the audited reference is CBPV (by inspection); desugaring "
+                      "order (application spines, parameter telescopes) and copattern elaboration are not covered. The golden references "
+                      "alarm on any semantic edit of eval.rs/link.rs arms, including a correct one, which then needs re-auditing.",
+    },
+    {
+        "id": "C03",
+        "technique": "static analysis: audited Lub arm table, whole-crate error-discipline rule, sort-helper arm tables, unroll-to-equality value flow on typed HIR",
+        "level_text": "Soundness side only: (1) Lub performs every audited field comparison, rejects every off-diagonal pair, keeps the guards "
+                      "and the closed accepting cases of the identity formers, the existential mode table and the AnnId sort table; (2) no "
+                      "unrecorded checker error is dropped anywhere in zydeco-statics; (3) try_as_<sort> helpers accept exactly their sort, "
+                      "every let-else on a sort enum ends in an error, no match on a sort enum continues through `_` outside two audited "
+                      "cases; (4) no unrolled type (unroll_k, or a deferred telescope materialised with an unrolling environment) flows into "
+                      "Lub, so a sealed definition is never compared by representation.",
+        "level_note": "NOT decided: completeness (well-typed programs are accepted), the exact diagnostic, inference, expected-type "
+                      "preparation. The rules are necessary conditions; they do not prove the typing rules.",
+    },
 ]
 
 _PENDING = "check not built yet in this round (static rule designed in DESIGN.md, implementation pending)"
 NOT_APPLICABLE = [
     {"property_id": "C20", "reason": "behavioural equation through a 2800-line type-directed translation; no clause is both visible in the shape of elaborate/monadic/* and a necessary condition of the equation (DESIGN.md C20)"},
 ] + [{"property_id": p, "reason": _PENDING} for p in
-     ["C02", "C03", "C04", "C07", "C08", "C09", "C12", "C13", "C14", "C18", "C19"]]
+     ["C04", "C07", "C08", "C09", "C12", "C13", "C14", "C18", "C19"]]
 
 NOTES = ("Static analysis only: every verdict is computed from /repo's current working tree by the zyq rustc driver "
          "(facts) and repository-specific rules; nothing executes zydeco. Exit 2 (no VIOLATION line) means the tree could not "
